@@ -79,7 +79,9 @@ pub open spec fn int_arg(a: Seq<Primitive>, k: int) -> bool { a.len() > k && a[k
 pub type Ret = Result<(Option<Primitive>, Option<Bridge>), VErr>;
 // the method's result: nil, or the present value v
 pub open spec fn is_nil(r: Ret) -> bool { r is Ok && r->Ok_0.0 == Some(Primitive::Optional(None)) }
-pub open spec fn is_present(r: Ret, v: Primitive) -> bool { r is Ok && r->Ok_0.0 is Some && r->Ok_0.0->Some_0 is Optional && r->Ok_0.0->Some_0->Optional_0 is Some && *r->Ok_0.0->Some_0->Optional_0->Some_0 == v }
+// C12 / C02: a present value of an optional kind IS the plain value (a stored `x: int? = 5` is the int 5): nothing wraps it, so every operation on the
+// kind works on it (D91: the built-ins handed out `Optional(Some(v))`, on which arithmetic, comparison, indexing and methods fail)
+pub open spec fn is_present(r: Ret, v: Primitive) -> bool { r is Ok && r->Ok_0.0 == Some(v) }
 // the text a radix parser must be handed: the receiver without exactly ONE leading prefix
 pub open spec fn without_prefix(t: Seq<char>, a: char, b: char) -> Seq<char> { if has_prefix(t, a, b) { t.skip(2) } else { t } }
 """
